@@ -126,6 +126,17 @@ func (a *Act) modTarget0(callee *ssa.Function, e Expr) *modTargetInfo {
 			fail("modifies %s: not a slice or map", e)
 		}
 	}
+	// elems(x): every element of every slice with the element type of x (coarse: the whole element heap)
+	if c, ok := e.(*ECall); ok && c.Fn == "elems" && len(c.Args) == 1 {
+		t := a.specType(callee, c.Args[0])
+		sl, ok := types.Unalias(t).Underlying().(*types.Slice)
+		if !ok {
+			fail("modifies elems(%s): not a slice", c.Args[0])
+		}
+		info.heaps = a.elemHeaps(sl.Elem())
+		info.pred = func(env *Env, r Term) Term { return "true" }
+		return info
+	}
 	// *x : the cell or struct x points to
 	if un, ok := e.(*EUnary); ok && un.Op == "*" {
 		t := a.specType(callee, un.X)
@@ -547,6 +558,28 @@ func (a *Act) callByContract(st *State, callee *ssa.Function, fc *FuncContract, 
 		u.Fact(app(">=", na, st.alloc))
 		st.alloc = na
 	}
+	// ghost state: the output counter and the event trace are not covered by modifies clauses
+	if !fc.NoFrame {
+		if clauseMentions(fc, "outlen") || u.E.mayOutput(callee, map[*ssa.Function]bool{}) {
+			st.setHeap(outHeap, "Int", u.D.Fresh("out", "Int"))
+		}
+		if fc.CallbackRank != nil || clauseMentions(fc, "tlen") {
+			l0 := st.heap(traceLen, "Int")
+			for h, srt := range u.heapSort {
+				if _, isTrace := traceSorts[h]; !(isTrace || strings.HasPrefix(h, "T_arg_")) {
+					continue
+				}
+				oldH := st.heap(h, srt)
+				nh := u.D.Fresh(h, srt)
+				if h == traceLen {
+					u.Fact(app(">=", nh, l0))
+				} else {
+					u.Fact(fmt.Sprintf("(forall ((i Int)) (! (=> (< i %s) (= (select %s i) (select %s i))) :pattern ((select %s i))))", l0, nh, oldH, nh))
+				}
+				st.heaps[h] = nh
+			}
+		}
+	}
 	res := a.freshResult(st, callee.Signature)
 	var rvals []Val
 	if res.Tuple != nil {
@@ -811,7 +844,7 @@ func (a *Act) frameObligations(out *State, fc *FuncContract) {
 	sort.Strings(names)
 	for _, n := range names {
 		srt := u.heapSort[n]
-		if _, isTrace := traceSorts[n]; isTrace || strings.HasPrefix(n, "G_") {
+		if _, isTrace := traceSorts[n]; isTrace || strings.HasPrefix(n, "G_") || strings.HasPrefix(n, "T_arg_") || n == outHeap {
 			continue // ghost state
 		}
 		init := u.heapInit(n, srt)
@@ -849,4 +882,89 @@ func ghostSort(s string) (string, types.Type) {
 func (u *Unit) loadAxioms() {
 	// axioms are translated lazily at query time (they may mention spec functions declared later);
 	// here we only prepare the environment
+}
+
+// clauseMentions: some clause of the contract calls the given specification builtin.
+func clauseMentions(fc *FuncContract, fn string) bool {
+	var has func(e Expr) bool
+	has = func(e Expr) bool {
+		switch v := e.(type) {
+		case *ECall:
+			if v.Fn == fn {
+				return true
+			}
+			for _, x := range v.Args {
+				if has(x) {
+					return true
+				}
+			}
+			if v.Target != nil {
+				return has(v.Target)
+			}
+		case *EUnary:
+			return has(v.X)
+		case *EBinary:
+			return has(v.X) || has(v.Y)
+		case *ESel:
+			return has(v.X)
+		case *EIndex:
+			return has(v.X) || has(v.I)
+		case *EQuant:
+			return has(v.Body)
+		case *EOld:
+			return has(v.X)
+		case *ECond:
+			return has(v.C) || has(v.A) || has(v.B)
+		case *EStruct:
+			for _, x := range v.Values {
+				if has(x) {
+					return true
+				}
+			}
+		}
+		return false
+	}
+	for _, cl := range fc.Clauses {
+		if cl.Expr != nil && has(cl.Expr) {
+			return true
+		}
+	}
+	return false
+}
+
+var outputIntrinsics = map[string]bool{"io.WriteString": true, "fmt.Fprintf": true, "fmt.Fprint": true, "fmt.Fprintln": true,
+	"fmt.Printf": true, "fmt.Println": true, "(*github.com/fatih/color.Color).Fprintf": true}
+
+// mayOutput: the function can reach a modelled output call through static calls.
+func (e *Engine) mayOutput(fn *ssa.Function, seen map[*ssa.Function]bool) bool {
+	if seen[fn] {
+		return false
+	}
+	seen[fn] = true
+	if outputIntrinsics[intrinsicKey(fn)] {
+		return true
+	}
+	for _, b := range fn.Blocks {
+		for _, ins := range b.Instrs {
+			c, ok := ins.(ssa.CallInstruction)
+			if !ok {
+				continue
+			}
+			com := c.Common()
+			if com.IsInvoke() {
+				continue
+			}
+			switch v := com.Value.(type) {
+			case *ssa.Function:
+				if e.mayOutput(v, seen) {
+					return true
+				}
+			case *ssa.MakeClosure:
+				if e.mayOutput(v.Fn.(*ssa.Function), seen) {
+					return true
+				}
+			}
+		}
+	}
+	return false
 }
